@@ -445,8 +445,22 @@ def encode_oid(c):
     c.loop(1, unroll=MAX_B128 + 1)
 
 
-@REG.contract("dpapi_ng._asn1._pack_asn1_object_identifier", props=["C07"], inline=True)
+OIDC = z3.Function("OIDCONTENT", Str, Bytes)  # content octets of the OBJECT IDENTIFIER with this dotted text
+
+
+@REG.contract("dpapi_ng._asn1._pack_asn1_object_identifier", props=["C07"])
 def pack_oid(c):
+    if not c.verifying:
+        # callers with symbolic OID text (C06): the content octets are the opaque value OIDCONTENT(text); literal OIDs
+        # are simply executed
+        v = c.param("value")
+        if isinstance(v, str) or c.param("tag") is not None:
+            c.inline_instead()
+        t = OIDC(v.term)
+        c.assume(z3.And(blen(t) >= 1, blen(t) <= 2**32))
+        c.returns(tlv(c, c.rope(b"\x06"), SBytes(R.Rope([R.full_atom(t)]))))
+        c.raises_only(set())
+        return
     arcs, content = oid_fresh(c)
     c.param("value", T.const(dotted(arcs)))
     tag = c.param("tag", T.const(some_tag(c)))
@@ -455,8 +469,21 @@ def pack_oid(c):
     c.loop(1, target="dpapi_ng._asn1._encode_object_identifier", unroll=MAX_B128 + 1)
 
 
-@REG.contract("dpapi_ng._asn1._read_asn1_object_identifier", props=["C07"], inline=True)
+@REG.contract("dpapi_ng._asn1._read_asn1_object_identifier", props=["C07"])
 def read_oid(c):
+    if not c.verifying:
+        # inverse of the summary above: TLV(06, OIDCONTENT(text)) reads back as text
+        data = c.param("data")
+        segs = c.I.rope_of(data).segs
+        if c.param("tag") is not None or c.param("header") is not None or len(segs) < 3 or not (isinstance(segs[0], R.Lit) and segs[0].data == b"\x06") \
+                or not isinstance(segs[1], R.Atom) or not isinstance(segs[2], R.Atom):
+            c.inline_instead()
+        a = segs[2]
+        if not (a.is_full() and z3.is_app(a.term) and a.term.decl().eq(OIDC)):
+            c.inline_instead()
+        c.returns((SStr(a.term.arg(0)), 1 + blen(segs[1].term) + blen(a.term)))
+        c.raises_only(set())
+        return
     arcs, content = oid_fresh(c)
     tag = some_tag(c)
     rest = c.fresh(T.Bytes, "rest")
